@@ -105,10 +105,14 @@ where
     FrameFn: FnOnce(&str, u32) -> T2 + Sync,
     T2: Future<Output = Result<FrameIO, Error>>,
 {
-    let mut ctx_lock = ctx.write().await;
-    let socket = ctx_lock.borrow_client_stream().unwrap();
-    let request = HttpRequest::read_from(socket).await?;
+    // read the request without holding the connection's lock: the client decides how long this takes,
+    // and everything that inspects the connection meanwhile (e.g. the /live API) would wait with it
+    let mut socket = ctx.write().await.take_client_stream();
+    let request = HttpRequest::read_from(&mut socket).await?;
     tracing::trace!("request={:?}", request);
+    let mut ctx_lock = ctx.write().await;
+    ctx_lock.set_client_stream(socket);
+    let socket = ctx_lock.borrow_client_stream().unwrap();
     if request.method.eq_ignore_ascii_case("CONNECT") {
         let protocol = request.header("Proxy-Protocol", "tcp");
         // let host = request.header("Host", "0.0.0.0:0");
